@@ -7,7 +7,9 @@ Open Scope N_scope.
 (* what the node read from its socket in this iteration *)
 Inductive kin := KNone | KResp (who : nat) | KReq (who : nat) (counted : bool).   (* counted: find_node, not read-only, node in server mode *)
 
-Record tk := { k_now : Z; k_in : kin; k_pinged : list (N * N); k_table : list nat; k_signed : list nat; k_boot_up : bool; k_known_up : bool }.
+Record tk := { k_now : Z; k_in : kin; k_pinged : list (N * N); k_table : list nat; k_signed : list nat; k_boot_up : bool; k_known_up : bool;
+              (* find_node requests for the node's own id that reached peers in this iteration; was such a lookup already running *)
+              k_asked : list (N * N); k_self_lookup : bool }.
 
 Inductive c14case :=
 (* legacy: identities that do not announce support for signed peers *)
@@ -37,6 +39,10 @@ Fixpoint run14_model (ids : list (N * N * N)) (legacy : list nat) (m : maint) (t
                  | KReq k counted => if counted then IReq (ident ids k) (rs06 legacy k) false else INone
                  end in
       let '(m', o) := mt_tick m (k_now t) inp in
+      (* a refresh that starts its lookup in this iteration asks what the tables held at the start of the iteration
+         (at most 20 entries: every one is among the closest) *)
+      (if negb (k_self_lookup t) && (length (rt_values (mt_rt m)) + length (rt_values (mt_srt m)) <=? 20)%nat
+       then forallb (fun a => addr_in a (k_asked t)) (refresh_seeds m (k_now t)) else true) &&
       table_same ids (mt_rt m') (k_table t) && table_same ids (mt_srt m') (k_signed t)
       && addrs_same (o_pings o) (k_pinged t) && run14_model ids legacy m' r
   end.
